@@ -26,12 +26,13 @@ K(a, b, c) == a * 2000 + b * 40 + c
 (***************************************************************************)
 (* Pools                                                                   *)
 (***************************************************************************)
-TableNames == <<"users", "orders", "order items", "table", "~u00dc~n~u00ef~", "Products", "t_1", "note", "ref">>
+\* (names that merely START with a keyword -- notes, indexes_count, tables -- are ordinary bare identifiers)
+TableNames == <<"users", "orders", "order items", "table", "~u00dc~n~u00ef~", "Products", "t_1", "note", "ref", "notes", "tables">>
 SchemaPool == <<"", "", "", "s1", "my schema", "public", "s1">>
 AliasPool  == <<"u", "O", "oi", "my alias", "a5", "P", "t1a", "n8", "r9">>
-ColNames   == <<"id", "name", "user id", "note", "type", "~u540d~~u524d~", "Ref", "c_2", "default", "pk">>
+ColNames   == <<"id", "name", "user id", "note", "type", "~u540d~~u524d~", "Ref", "c_2", "default", "pk", "notes", "indexes_count", "ref_id">>
 EnumNames  == <<"status", "order status", "enum", "~u00e9~tat">>
-EnumItems  == <<"new", "in progress", "done", "~u2713~ ok", "null", "x-1">>
+EnumItems  == <<"new", "in progress", "done", "~u2713~ ok", "null", "x-1", "notes">>
 PlainTypes == << [schema |-> "", name |-> "int", suffix |-> ""],
                  [schema |-> "", name |-> "varchar", suffix |-> "(255)"],
                  [schema |-> "", name |-> "decimal", suffix |-> "(10, 2)"],
@@ -50,7 +51,7 @@ Defaults   == << [k |-> "none", v |-> ""], [k |-> "none", v |-> ""], [k |-> "int
                  [k |-> "str", v |-> "it's"], [k |-> "str", v |-> ""], [k |-> "expr", v |-> "now()"],
                  [k |-> "expr", v |-> "a + 'b'"] >>
 Colors     == <<"", "", "#abc", "#A1B2C3", "#fff000">>
-PropKeys   == <<"owner", "pii", "k_3", "my key">>
+PropKeys   == <<"owner", "pii", "k_3", "my key", "notes_key">>
 RefKinds   == <<">", "<", "-", "<>">>
 Actions    == <<"", "", "", "cascade", "no action", "restrict", "set null", "set default">>
 IdxTypes   == <<"", "", "btree", "hash", "gin", "gist", "brin", "spgist">>
@@ -59,7 +60,7 @@ Exprs      == <<"lower(name)", "id * 2", "now()">>
 GroupNames == <<"g1", "my group", "TableGroup">>
 StickyNames == <<"n1", "reminder_2", "note">>
 ProjNames  == <<"proj", "my project", "Project">>
-ProjKeys   == <<"database_type", "version", "owner">>
+ProjKeys   == <<"database_type", "notes", "owner">>
 
 Maybe(seed, key, pct, pool) == IF Coin(seed, key, pct) THEN Pick(seed, key + 1, pool) ELSE ""
 
